@@ -313,13 +313,29 @@ def one_shot_sources(f: FuncInfo, e: ast.AST, depth: int = 3) -> List[ast.AST]:
     return []
 
 
+_SCALAR_ANN = {'int', 'float', 'str', 'bool', 'bytes', 'int_', 'float_', 'str_', 'bool_', '_int', '_float', '_str', '_bool', 'None', 'Any'}
+
+
+def param_may_be_iterator(prog: Any, g: FuncInfo, p: str) -> bool:
+    """False when the annotation says the parameter is a scalar or an instance of a library class (never an iterator)."""
+    a = g.node.args  # type: ignore[attr-defined]
+    arg = next((x for x in a.posonlyargs + a.args + a.kwonlyargs if x.arg == p), None)
+    if arg is None or arg.annotation is None:
+        return True
+    names = {x.id for x in ast.walk(arg.annotation) if isinstance(x, ast.Name)} | {x.attr for x in ast.walk(arg.annotation) if isinstance(x, ast.Attribute)}
+    names |= {w for x in ast.walk(arg.annotation) if isinstance(x, ast.Constant) and isinstance(x.value, str) for w in x.value.replace('[', ' ').replace(']', ' ').replace(',', ' ').replace("'", ' ').split()}
+    names -= {'Optional', 'Union'}
+    lib_classes = {c.name for c in prog.classes.values()}
+    return not names <= (_SCALAR_ANN | lib_classes)
+
+
 def shared_argument_obligations(ctx: Any, R: str, g: FuncInfo, what: str) -> List[Ob]:
     """For every parameter of g that may be walked more than once per call (iterated in a loop, or handed to a callee once
     per trip of a loop -- e.g. to each listener in turn): every call site passes something re-iterable."""
     obs: List[Ob] = []
     for p in g.params[1:] if g.cls is not None else g.params:
         w8, where = iteration_weight(g, p)
-        if w8 < 2:
+        if w8 < 2 or not param_may_be_iterator(ctx.prog, g, p):
             continue
         for cs in ctx.cg.callers_of(g):
             idx = g.params.index(p) - (1 if g.cls is not None and isinstance(cs.node.func, ast.Attribute) else 0)
